@@ -16,7 +16,18 @@ PENDING = ["coalesced", "immediate", "snapshot", "prepared", "subscription", "al
 
 
 def vfor(x, v):
-    return v % 3 if x == 2 else v % 101
+    return v % 3 if x % 4 == 2 else v % 101
+
+
+def is_bridge(ops) -> bool:
+    return any(op[0] == "world" and op[1] == "bridge" for op in ops)
+
+
+def tables(ops):
+    """(immediate, always-null) characteristic indexes by the HAP type of each test characteristic
+    (#x and #x+4 are the same kind on the two bridged accessories)"""
+    k = 2 if is_bridge(ops) else 1
+    return [x + 4 * j for j in range(k) for x in IMM], [x + 4 * j for j in range(k) for x in NUL]
 
 
 class Book:
@@ -230,24 +241,59 @@ def callback_family() -> List[List[list]]:
     return res
 
 
+def scene_family() -> List[List[list]]:
+    """one PUT with several queries ("scene" writes): on a bridge whose two accessories share their
+    iids (#x on aid 2, #x+4 on aid 3) and on the standalone accessory; an event for one of the written
+    characteristics is pending for the writer; values from a small set so that the value written to the
+    OTHER characteristic equals the stale queued value; both query orders; writer / other subscribed"""
+    res = []
+    for bridge in (True, False):
+        pairs = ((0, 4), (4, 0), (1, 5), (3, 7), (0, 1)) if bridge else ((0, 1), (1, 0), (0, 3), (3, 1))
+        for x, y in pairs:
+            for order in (0, 1):
+                for other_sub in (False, True):
+                    for queued, wx, wy in ((10, 20, 10), (10, 20, 30), (10, 10, 20), (20, 10, 20)):
+                        for d in (0, 4, 10):
+                            ops = [["advance", 1]] + ([["world", "bridge"]] if bridge else [])
+                            ops += [["connect", 0], ["verify", 0], ["connect", 1], ["verify", 1],
+                                    ["putm", 0, [[x, True, None], [y, True, None]], False]]
+                            if other_sub:
+                                ops.append(["putm", 1, [[y, True, None], [x, True, None]], False])
+                            ops.append(["app_set", x, vfor(x, queued)])
+                            if d:
+                                ops.append(["advance", d])
+                            qs = [[x, None, vfor(x, wx)], [y, None, vfor(y, wy)]]
+                            ops.append(["putm", 0, qs if order == 0 else qs[::-1], False])
+                            ops += [["ready"], ["advance", 16], ["putm", 1, [[y, None, vfor(y, 33)], [x, False if other_sub else None, vfor(x, 34)]], False],
+                                    ["advance", 16], ["get", 0, x], ["get", 0, y]]
+                            res.append(ops)
+    return res
+
+
 def random_script(rng: random.Random, max_ops: int = 30, flavour: str = "c12") -> List[list]:
     b = Book()
     ops: List[list] = [["advance", 1]]
     nconn = rng.choice([1, 2, 2, 3, 3])
-    xs = rng.sample([0, 1, 2, 3], rng.choice([1, 2, 3, 3]))
-    if flavour == "c12" and rng.random() < 0.7 and not any(x in IMM for x in xs):
+    bridge = rng.random() < 0.25
+    if bridge:
+        ops.append(["world", "bridge"])
+        base = rng.choice([0, 1, 3])
+        xs = [base, base + 4] + rng.sample([x for x in range(8) if x % 4 != base], rng.choice([0, 1, 2]))
+    else:
+        xs = rng.sample([0, 1, 2, 3], rng.choice([1, 2, 3, 3]))
+    if flavour == "c12" and not bridge and rng.random() < 0.7 and not any(x in IMM for x in xs):
         xs[-1] = rng.choice(IMM)
     n = rng.randrange(6, max_ops + 1)
     if rng.random() < 0.35:
         # setter callbacks on some (never always-null) characteristics
-        for x in [x for x in xs if x not in NUL][: rng.choice([1, 1, 2])]:
+        for x in [x for x in xs if x % 4 not in NUL][: rng.choice([1, 1, 2])]:
             kind = rng.choice(["echo", "echo", "set_to", "set_other"])
             if kind == "echo":
                 ops.append(["cb", x, "echo"])
             elif kind == "set_to":
                 ops.append(["cb", x, "set_to", vfor(x, rng.choice([7, 20, 50]))])
             else:
-                y = rng.choice([y for y in (0, 1, 3) if y != x])
+                y = rng.choice([y for y in ((0, 1, 3, 4, 5, 7) if bridge else (0, 1, 3)) if y != x])
                 ops.append(["cb", x, "set_other", y, vfor(y, rng.choice([9, 20]))])
         n += 2
 
@@ -275,7 +321,15 @@ def random_script(rng: random.Random, max_ops: int = 30, flavour: str = "c12") -
         elif r < 0.40 and live:
             p = rng.choice(live)
             ev = rng.choice([None, None, True, False]) if rng.random() < 0.6 else None
-            ops.append(["put", p, x, ev, vfor(x, rng.choice([1, 2, 3, 10, 20, 30, rng.randrange(101)])), False])
+            if len(xs) > 1 and rng.random() < 0.35:
+                # a scene write: several characteristics in one PUT, values from a small set
+                qs = []
+                for qx in rng.sample(xs, rng.choice([2, 2, min(3, len(xs))])):
+                    qs.append([qx, rng.choice([None, None, True, False]) if rng.random() < 0.3 else None,
+                               vfor(qx, rng.choice([10, 20, 30])) if rng.random() < 0.85 else None])
+                ops.append(["putm", p, qs, False])
+            else:
+                ops.append(["put", p, x, ev, vfor(x, rng.choice([1, 2, 3, 10, 20, 30, rng.randrange(101)])), False])
         elif r < 0.52 and live:
             p = rng.choice(live)
             ev = rng.choice([True, True, False, False])
@@ -343,7 +397,7 @@ def random_script(rng: random.Random, max_ops: int = 30, flavour: str = "c12") -
             ops.append(["stop"])
             b.stopped = True
             b.dead.update(range(len(b.addr)))
-        if rng.random() < 0.55 and ops[-1][0] in ("app_set", "put", "app_set_thread"):
+        if rng.random() < 0.55 and ops[-1][0] in ("app_set", "put", "putm", "app_set_thread"):
             ops.append(["ready"])
     # drain: everything that was closed gets its loss, then time passes
     if rng.random() < 0.7:
@@ -400,8 +454,9 @@ def canon_impl(res: Dict[str, Any]) -> Dict[str, Any]:
 
 
 def model_line(ops, fixed=True, imm=None, nul=None) -> Dict[str, Any]:
-    return {"layer": "sysev", "imm": IMM if imm is None else imm, "nul": NUL if nul is None else nul,
-            "fix12": fixed, "fix13": fixed, "fixResub": fixed, "ops": ops}
+    ti, tn = tables(ops)
+    return {"layer": "sysev", "imm": ti if imm is None else imm, "nul": tn if nul is None else nul,
+            "fix12": fixed, "fix13": fixed, "fixResub": fixed, "nchars": 8 if is_bridge(ops) else 4, "ops": ops}
 
 
 def first_difference(model, impl):
